@@ -148,12 +148,17 @@ class Array(Dom):
 class HeapCompiler(Dom):
     """`self` of an ExcelCompiler method in heap mode: cell_map and dep_graph are abstract (A-NX)"""
 
-    def __init__(self, cycles=False):
+    def __init__(self, cycles=False, building=False):
         self.cycles = cycles
+        self.building = building     # graph construction: cell_map membership, graph_todos and edges are mutable heap state
 
 
 class HeapCell(Dom):
     """a cell / range node of the model (an element of the uninterpreted sort Node)"""
+
+
+class HeapAddr(Dom):
+    """an address object (AddressRange / AddressCell) of a node (heap mode)"""
 
 
 class HeapSet(Dom):
